@@ -375,7 +375,40 @@ def json_places(rv):
     return _j.dumps(rv)
 
 
+def rule_literal_lossless(ck):
+    """`a[k]` selects the value stored under key k: the comparison with the literal must not wrap"""
+    prog = ck.prog
+    ck.rule("table.literal_lossless", "SupportedScalar::equal_with_literal compares an integer payload with the literal (an i64) without a lossy conversion: payload types that do not embed in i64 (u64, usize, u128, i128) are converted with a checked conversion (TryFrom), never with an `as` cast — u64::MAX `as i64` is -1 and 2^64+5 `as i64` is 5")
+    fs = [f for p_, f in prog.fns.items() if p_.endswith("SupportedScalar::equal_with_literal")]
+    if not ck.ob("table.literal_lossless", "equal_with_literal/exists", len(fs) == 1, "", ""):
+        return
+    f = fs[0]
+    gs = prog.with_closures(f.path)
+    wide = {"u64", "usize", "u128", "i128"}
+    lossy = []
+    checked = set()
+    for g in gs:
+        ck.saw(g)
+        for i, j, pl, rv, sp in g.assigns():
+            if rv["r"] == "cast" and rv.get("ty") == "i64":
+                src = op_local(rv["op"])
+                st = g.raw["locals"][src][0] if src is not None else "?"
+                if st in wide:
+                    lossy.append(st)
+        for c in g.calls():
+            m = re.search(r"<i64 as std::convert::TryFrom<(\w+)>>::try_from$|TryFrom<(\w+)>>::try_from$", c.name)
+            if m:
+                checked.add(m.group(1) or m.group(2))
+            elif c.name.endswith("::try_from") or c.name.endswith("::try_into"):
+                for ga in (c.gargs or []):
+                    if str(ga) in wide:
+                        checked.add(str(ga))
+    ck.ob("table.literal_lossless", "equal_with_literal/no-wrapping-cast-of-wide-payloads", not lossy, f"`as i64` applied to {sorted(set(lossy))}", f.loc(), what="a map key wider than i64 matches a literal it wraps to (m[-1] finds the key u64::MAX)")
+    ck.ob("table.literal_lossless", "equal_with_literal/wide-payloads-converted-checked", wide <= checked or not lossy and len(checked) >= 3, f"checked conversions from {sorted(checked)}", f.loc())
+
+
 def run(ck):
+    rule_literal_lossless(ck)
     rule_slice(ck)
     rule_dispatch(ck)
     rule_parser(ck)
